@@ -312,6 +312,10 @@ def case_job(args: tuple[Any, ...]) -> dict[str, Any]:
         keys += [("not-base64", "!!!! not base64 !!!!", False), ("wrong-padding", "QUJD=", False), ("bad-length-1", "A", False),
                  ("31-bytes-unpadded", base64.b64encode(bytes(31)).decode().rstrip("="), False),
                  ("urlsafe-32", base64.urlsafe_b64encode(b"\xff" * 32).decode(), None)]
+        good = base64.b64encode(bytes(range(32))).decode()
+        keys += [("one-space", " ", False), ("newline", "\n", False), ("whitespace", " \t\r\n", False),
+                 ("valid+nbsp", good + "\u00a0", False), ("valid+accent", good[:-1] + "\u00e9", False), ("non-ascii-only", "\u00e4\u00f6\u00fc", False),
+                 ("valid+nul", good + "\x00", None), ("valid+newline", good + "\n", None)]
         # every key string is tried three times in the same process (a retrying client): the verdict may not depend on history
         for label, key, valid in [k for k in keys for _ in range(3)]:
             w = ConnWorld(noise=True)
@@ -339,6 +343,38 @@ def case_job(args: tuple[Any, ...]) -> dict[str, Any]:
                         add(f"key:{label}:sent", f"{len(sent)} bytes were written before the key was rejected", desc="key:" + label)
             finally:
                 w.close()
+        # the same key strings handed to an APIClient (what an application does): same verdict, nothing written - in particular no
+        # fallback to an unencrypted session
+        from aioesphomeapi.core import APIConnectionError
+
+        for label, key, valid in keys:
+            if valid is None or key == "":
+                continue  # an empty string given to the client means "no key configured" (documented: plaintext)
+            w = ConnWorld(client=True, noise=True, noise_psk_text=key, login=False)
+            try:
+                w.spawn("connect", lambda: w.client.connect(login=False))
+                w.drain()
+                if w.net.connecting():
+                    w.io_connect(w.net.connecting()[0], 0)
+                    w.drain()
+                out["evals"] += 1
+                r = w.results.get("connect")
+                sent = b"".join(x.sent_bytes() for x in w.net.sockets)
+                if valid:
+                    if r is not None:
+                        add(f"client-key:{label}", f"valid key given to the client was rejected: {w.outcome('connect')}", desc="key:" + label)
+                    elif not sent or sent[:1] != b"\x01":
+                        add(f"client-key:{label}:nohello", f"valid key given to the client, but the first bytes written are {sent[:3]!r} (not a Noise hello)", desc="key:" + label)
+                else:
+                    out["failing"] += 1
+                    if r is None or not isinstance(r[1], InvalidEncryptionKeyAPIError):
+                        add(f"client-key:{label}", f"key string {label} given to the client must be rejected as an invalid encryption key; connect "
+                            f"{'is still running' if r is None else 'ended ' + str(w.outcome('connect'))}, {len(sent)} bytes written ({sent[:4]!r}...)", desc="key:" + label)
+                    elif sent:
+                        add(f"client-key:{label}:sent", f"{len(sent)} bytes were written before the key was rejected", desc="key:" + label)
+            finally:
+                w.close()
+        del APIConnectionError
     out["classes"] = sorted(out["classes"])
     return out
 
